@@ -656,6 +656,31 @@ def sym_int_parse(x, base=10):
     return mk(SInt, term, cval)
 
 
+def sym_decimal_parse(x):
+    """float(<symbolic str>) for plain decimals `digits[.digits]` (ASCII, no sign/exponent): an exact rational (SRat).
+    Returns None when the current string is not of that shape (caller concretises)."""
+    import re as _re
+    from .core import SRat
+
+    conc = sraw(x)
+    if not _re.fullmatch(r"[0-9]+(\.[0-9]*)?|\.[0-9]+", conc) or len(conc) > 12:
+        return None
+    cs = list(x._cs)
+    num, frac, seen_dot = z3.IntVal(0), 0, False
+    for t, ch in zip(cs, conc):
+        if ch == ".":
+            if not branch(t == 46, True):
+                return None
+            seen_dot = True
+            continue
+        if not branch(z3.And(t >= 48, t <= 57), True):
+            return None
+        num = num * 10 + (t - 48)
+        frac += 1 if seen_dot else 0
+    cn = int(conc.replace(".", ""))
+    return SRat(z3.simplify(num), 10 ** frac, cn)
+
+
 def sym_int_render(i):
     """str(<symbolic int>): decimal digits, branching on sign and digit count.  The digits are fresh variables defined by
     |i| == sum(d_k * 10^k) (a total, unique decomposition), which keeps later reasoning linear."""
